@@ -545,6 +545,78 @@ func runC16(c *Check) {
 		}
 	}
 	c.MinInstances("C16-R5", 1)
+
+	// ---- R6: transport limits admit everything the client may send. Blobs travel base64-encoded
+	// inside JSON (4/3 of their raw size plus the envelope); a request-size cap on the server (or a
+	// response cap on the client) below 4/3 of the client's batch limit rejects batches the same DA
+	// accepts in-process.
+	c.Doc("C16-R6", "CT: any request/response size limit configured on the JSON-RPC server or client is at least 4/3 of the client's batch limit (base64) — otherwise large legal batches fail only behind the proxy.")
+	{
+		var limit int64
+		// the client's batch limit: the constant stored into MaxBlobSize
+		for _, fn := range dp.Funcs {
+			pk := fnPkg(fn)
+			if pk == nil || pk.Pkg.Path() != jsonrpcPkg {
+				continue
+			}
+			for _, b := range fn.Blocks {
+				for _, in := range b.Instrs {
+					st, ok := in.(*ssa.Store)
+					if !ok {
+						continue
+					}
+					fa, ok := st.Addr.(*ssa.FieldAddr)
+					if !ok || fieldLabel(fa.X.Type(), fa.Field) != "MaxBlobSize" {
+						continue
+					}
+					if k, ok := st.Val.(*ssa.Const); ok && k.Value != nil {
+						limit = k.Int64()
+					}
+				}
+			}
+		}
+		nOpt := 0
+		for _, fn := range dp.Funcs {
+			pk := fnPkg(fn)
+			if pk == nil || pk.Pkg.Path() != jsonrpcPkg {
+				continue
+			}
+			for _, b := range fn.Blocks {
+				for _, in := range b.Instrs {
+					call, ok := in.(*ssa.Call)
+					if !ok {
+						continue
+					}
+					cn := commonName(call.Common())
+					if !strings.Contains(cn, "go-jsonrpc.WithMaxRequestSize") && !strings.Contains(cn, "go-jsonrpc.WithMaxResponseSize") {
+						continue
+					}
+					nOpt++
+					inst := fnShort(fn) + " ⟂ " + cn[strings.LastIndex(cn, ".")+1:]
+					k, isK := call.Common().Args[0].(*ssa.Const)
+					need := (limit*4 + 2) / 3
+					switch {
+					case limit == 0:
+						c.Unk("C16-R6", inst, fnName(fn), dp.InstrPos(in), "anchor lost: the client's batch limit (constant stored into MaxBlobSize)")
+					case !isK:
+						c.Unk("C16-R6", inst, fnName(fn), dp.InstrPos(in), "the size limit is not a constant")
+					case k.Int64() >= need:
+						c.OK("C16-R6", inst, fnName(fn), dp.InstrPos(in), fmt.Sprintf("limit %d >= 4/3 of the client's batch limit %d", k.Int64(), limit), true)
+					default:
+						c.Bad("C16-R6", inst, fnName(fn), dp.InstrPos(in), fmt.Sprintf("the transport limit %d is below %d, the base64 size of the %d raw bytes the client puts into one call: a legal batch is rejected by the transport with a generic error while the same DA called directly accepts it", k.Int64(), need, limit), nil)
+					}
+				}
+			}
+		}
+		if nOpt == 0 {
+			if limit == 0 {
+				c.Unk("C16-R6", "transport-limits", "", "", "anchor lost: the client's batch limit (constant stored into MaxBlobSize)")
+			} else {
+				c.OK("C16-R6", "transport-limits", "", "", fmt.Sprintf("no request/response size limit is configured on the JSON-RPC server or client (client batch limit %d)", limit), true)
+			}
+		}
+		c.MinInstances("C16-R6", 1)
+	}
 	_ = sort.Strings
 }
 
